@@ -3,7 +3,7 @@
   with such a part selects.
 -/
 import ValidaProofs.Lemmas.C03Step
-namespace ValidaProofs
+namespace ValidaProofs.C03
 open Valida ValidaGen ValidaSpec
 
 /-! ### what the constructor builds (evaluates `containerCond`, `Cond.mkBin`, the class table) -/
@@ -205,4 +205,4 @@ theorem ofPrim_cases (v : PyVal) (p : Part) (hp : Part.ofPrim v = .ok p) :
   | bool b => rw [ofPrim_bool] at hp; cases hp; exact ⟨rfl, Or.inr rfl⟩
   | _ => simp [Part.ofPrim] at hp
 
-end ValidaProofs
+end ValidaProofs.C03
